@@ -295,10 +295,11 @@ def apply_ds_violation(rng, d, v):
     elif v == "var_transposed":
         d["vars"].append({"name": "t", "kind": "cr"})     # a violation only when rows != cols
     elif v == "attr_missing":
-        d["attrs"].remove(rng.choice(FIVE))
+        a = rng.choice(FIVE)
+        d["attrs"] = [x for x in d["attrs"] if x != a]
     elif v == "attr_two_missing":
-        for a in rng.sample(FIVE, 2):
-            d["attrs"].remove(a)
+        gone = rng.sample(FIVE, 2)
+        d["attrs"] = [x for x in d["attrs"] if x not in gone]
     elif v == "no_attrs":
         d["attrs"] = [a for a in d["attrs"] if a not in FIVE]
     elif v == "nan_bound" and d["disp"]:
@@ -392,7 +393,7 @@ def run_datasets(ctx, model, cases):
             ctx.violation("wellformed_datasets_refused", f"check_datasets raised (class {impl[1]}) on a well-formed pair "
                           f"({cs['kind']})", replay)
         if not ok and impl == [0]:
-            ctx.violation("malformed_datasets_accepted:" + why, f"check_datasets accepted a pair violating the contract "
+            ctx.violation("malformed_datasets_accepted." + why, f"check_datasets accepted a pair violating the contract "
                           f"({why}; {cs['kind']})", replay)
         ctx.count("dataset_accepted" if impl == [0] else "dataset_refused")
         if impl == [0] or cs["kind"].startswith("single-min_gt_max"):
@@ -635,6 +636,30 @@ def has_bool_interval(user):
     return isinstance(d, list) and any(isinstance(x, bool) for x in d)
 
 
+def undocumented_class(out):
+    """structural class of an accepted configuration that is not a documented form"""
+    try:
+        sides = out["input"]
+        d = sides["left"]["disp"]
+        if isinstance(d, list) and len(d) != 2:
+            return "interval_length"
+        if isinstance(d, list) and d[0] > d[1]:
+            return "interval_reversed"
+        for side in ("left", "right"):
+            nd = sides[side]["nodata"]
+            if not ((isinstance(nd, int) and not isinstance(nd, bool)) or (isinstance(nd, float) and math.isnan(nd))):
+                return "nodata_type"
+        for side in ("left", "right"):
+            for k in ("mask", "classif", "segm"):
+                if not (sides[side][k] is None or isinstance(sides[side][k], str)):
+                    return "optional_type"
+        if isinstance(d, list) and sides["right"]["disp"] is not None:
+            return "right_disp_with_interval"
+    except Exception:  # pylint: disable=broad-except
+        return "outline"
+    return "sizes_or_files"
+
+
 def same_json(a, b):
     return jsonwire.to_wire(a) == jsonwire.to_wire(b)
 
@@ -697,7 +722,8 @@ def run_inputs(ctx, model, files, cases):
             continue
         if accepted:
             if spec_of_out[i] != 1:
-                ctx.violation("undocumented_input_accepted", "check_input_section returned a configuration that is not a "
+                ctx.violation("undocumented_input_accepted." + undocumented_class(out),
+                              "check_input_section returned a configuration that is not a "
                               f"documented form ({cs['kind']} {cs.get('what')})", replay)
             elif comp is None or unordered(out.get("input", {}).get("left")) != unordered(comp["input"]["left"]) \
                     or unordered(out["input"].get("right")) != unordered(comp["input"]["right"]):
